@@ -605,3 +605,127 @@ def bounds_witnesses(prog, res):
             res.witness.append((name, name not in flagged))
     if n < 10:
         res.broken.append("numeric-boundary witness file yielded only %d functions" % n)
+
+
+# ------------------------------------------------------------------ unboxing under a test that admits non-fixnums
+def run_unbox_belief(prog, res, prop, rule, units, floor=0):
+    """`sexp_unbox_fixnum(x)` reads the bits of x as an integer.  Where the tests that hold on every path to that
+    point say that x is a number of one of several representations, not all of them the fixnum - the code has
+    just checked `sexp_exact_integerp(x)`, say - a bignum reaches the unboxing and its address is taken for the
+    value.  (The programmer's own test is the evidence that the other representations can occur.)"""
+    from kinds import KindModel, KindAnalysis
+    from rules import c01i
+    stat = res.stat(rule, "no fixnum unboxing of a value that the dominating numeric tests allow to be a bignum, flonum, "
+                    "ratio or complex", floor=floor)
+    model = KindModel(prog)
+    fix = {k for k in model.U if str(k) == "i:fixnum"}
+    num = set(fix)
+    for m in ("bignum", "flonum", "ratio", "complex"):
+        num |= set(model.member_tags.get(m, set()))
+    for fn in prog.all_funcs():
+        if fn.unit.name not in units or not fn.blocks:
+            continue
+        sites = []
+        for i, nd in enumerate(fn.nodes):
+            if nd["k"] == "bin":
+                x = c01i.unbox_operand(fn, i)
+                if x is not None:
+                    x = fn.strip(x)
+                    if fn.nodes[x]["k"] == "ref" and "d" in fn.nodes[x]:
+                        sites.append((i, x))
+        if not sites:
+            continue
+        vids = {fn.nodes[x]["d"] for (_i, x) in sites}
+        ka = KindAnalysis(model, fn, {v: model.U for v in vids if v in fn.params})
+        ka.sticky = set(vids)
+        for (i, x) in sites:
+            ka.probes[i] = x
+        ka.run()
+        seen = set()
+        for (i, x) in sites:
+            ks = ka.probe_results.get(i)
+            if ks is None:
+                continue
+            stat.sites += 1
+            if ks == model.U or not (ks <= num):
+                continue            # no numeric belief established on this path
+            stat.obligations += 1
+            if not (ks & fix) or not (ks - fix):
+                stat.discharged += 1
+                continue
+            key = (fn.name, fn.txt(x))
+            if key in seen:
+                continue
+            seen.add(key)
+            res.add(Finding(prop, rule + ".unboxed-non-fixnum", fn.name, "unbox of %s" % fn.txt(x), fn.where(i),
+                            "%s unboxes `%s` as a fixnum where the tests that hold on every path only establish that it is one of "
+                            "%s: for the other representations the object's address is used as the number"
+                            % (fn.name, fn.txt(x), model.describe(ks)[:80]), unit=fn.unit.display))
+    return stat
+
+
+# ------------------------------------------------------------------ radix threading
+def run_radix(prog, res, prop, rule, units, floor=2):
+    """the number reader is parameterised by the radix.  A parameter is a radix when the function accumulates
+    `acc * P + digit` and rejects `digit >= P`, or hands P on to such a parameter of another function.  A function
+    that received a radix and calls a reader that takes one passes its own radix on: a literal there reads part of
+    the same number (the denominator of a ratio, say) in another base."""
+    stat = res.stat(rule, "functions that receive the radix pass it to the number readers they call", floor=floor)
+    funcs = [f for f in prog.all_funcs() if f.blocks and f.unit.name in units]
+    radix = {}      # function name -> parameter index
+    for fn in funcs:
+        for k, p in enumerate(fn.params):
+            if (fn.var_type(p) or "") not in ("int", "long", "unsigned int", "unsigned long"):
+                continue
+            mul = cmp = False
+            for nd in fn.nodes:
+                if nd["k"] == "bin" and nd["o"] == "*" and any(fn.nodes[fn.strip(c)]["k"] == "ref" and fn.nodes[fn.strip(c)].get("d") == p
+                                                                for c in nd["c"]):
+                    mul = True
+                if nd["k"] == "bin" and nd["o"] in (">=", "<"):
+                    r = fn.strip(nd["c"][1])
+                    if fn.nodes[r]["k"] == "ref" and fn.nodes[r].get("d") == p:
+                        cmp = True
+            if mul and cmp:
+                radix[fn.name] = k
+    if not radix:
+        from extract import AnalysisBroken
+        raise AnalysisBroken("anchor vanished: no function accumulates digits in a radix parameter")
+    changed = True
+    while changed:
+        changed = False
+        for fn in funcs:
+            if fn.name in radix:
+                continue
+            for nd in fn.nodes:
+                if nd["k"] == "call" and nd.get("o") in radix:
+                    k = radix[nd["o"]]
+                    args = nd["c"][1:]
+                    if k < len(args):
+                        a = fn.strip(args[k])
+                        if fn.nodes[a]["k"] == "ref" and fn.nodes[a].get("d") in fn.params:
+                            radix[fn.name] = fn.params.index(fn.nodes[a]["d"])
+                            changed = True
+                            break
+    for fn in funcs:
+        if fn.name not in radix:
+            continue
+        p = fn.params[radix[fn.name]]
+        for i, nd in enumerate(fn.nodes):
+            if nd["k"] != "call" or nd.get("o") not in radix:
+                continue
+            k = radix[nd["o"]]
+            args = nd["c"][1:]
+            if k >= len(args):
+                continue
+            stat.sites += 1
+            stat.obligations += 1
+            if p in fn.refs_in(args[k]):
+                stat.discharged += 1
+                stat.sample({"site": fn.where(i), "function": fn.name, "callee": nd["o"]})
+            else:
+                res.add(Finding(prop, rule + ".radix-not-passed", fn.name, "%s(.., %s, ..)" % (nd["o"], fn.txt(args[k])[:12]), fn.where(i),
+                                "%s reads a number in the radix `%s` it was given, but calls %s with %s for the radix: that part of "
+                                "the literal is read in another base than the rest" % (fn.name, fn.vars[p]["n"], nd["o"], fn.txt(args[k])[:12]),
+                                unit=fn.unit.display))
+    return stat
